@@ -133,7 +133,11 @@ Inductive case :=
 (* constants read from the package (bufferLen, bufferLen*20/100 as written in swap(), swapWaitMax in ms, pktHeadLen) *)
 | CHist (blen thr wmax hlen : Z) (ops : list hop) (os : list obs)
 (* bodies given to handler.HandleMetricsBatchRaw and the bytes of the batch handed to the write callback *)
-| CFrames (bodies : list (list Z)) (out : list Z).
+| CFrames (bodies : list (list Z)) (out : list Z)
+(* real sendLoop against a TCP listener that reset the connection: the write of a batch fails with nothing
+   written; off = (first id that arrives on the new connection) - (first id of that batch): 0 = the packet
+   whose write failed is retried, 1 = it is skipped; -1: the real-time scenario was inconclusive *)
+| CRetry (off : Z).
 
 Definition cfg_eqb (a b : cfg) : bool := (cLen a =? cLen b) && (cThr a =? cThr b) && (cMax a =? cMax b).
 
@@ -153,6 +157,14 @@ Definition ok (c : case) : bool :=
       | Some fs => list_eqb (list_eqb Z.eqb) fs bodies
       | None => false
       end
+  | CRetry off =>
+      if off =? -1 then true else
+      let b := mkBuf [] [10; 11; 12] 0 false SWrite [] [] in
+      let t fxR := match write_err fxR 3 b with
+                   | Some b' => match pending b' with p :: _ => p - 10 =? off | [] => false end
+                   | None => false
+                   end in
+      if t false then true else t true
   end.
 
 Definition mism := mismatches ok.
